@@ -55,7 +55,7 @@ if os.path.exists(p):
 
 os.makedirs(DST, exist_ok=True)
 index = []
-for rnd, prefix in ((1, "out-"), (2, "out2-"), (3, "out3-"), (4, "out4-"), (5, "out5-"), (6, "out6-"), (7, "out7-")):
+for rnd, prefix in ((1, "out-"), (2, "out2-"), (3, "out3-"), (4, "out4-"), (5, "out5-"), (6, "out6-"), (7, "out7-"), (8, "out8-")):
     for i in range(1, 19):
         pid = f"C{i:02d}"
         for v in "AB":
